@@ -5,3 +5,5 @@ export PATH=/root/go/pkg/mod/golang.org/toolchain@v0.0.1-go1.24.0.linux-amd64/bi
 cd "$(dirname "$0")/engine"
 go build -o gosymex .
 echo "gosymex built"
+# engine conformance: Go-semantics battery + server smoke path, engine vs native (never blocks the checks)
+cd .. && ./vcheck SMOKE quick | tail -3 || true
